@@ -131,7 +131,7 @@ def r4(ctx, rid, crate, roots, forbid, allow, stop=None, floor_roots=1, floor_re
         extra = "" if al is None else " (%d sites, only %d are justified: %s)" % (len(lst), al[0], al[1])
         ctx.record(rid, "R4", s0["fn"], d, "violation", sorted({x["loc"] for x in lst}),
                    ["%s `%s` reachable from an untrusted entry and not justified%s; call chain: %s" % (s0["kind"], s0["what"], extra, s0["via"])],
-                   key_detail=s0["what"])
+                   key_detail="%s x%d" % (s0["what"], len(lst)))
     ctx.stats["r4_sites"] += len(found)
     ctx.stats["r4_auto_discharged"] += nauto
     ctx.stats["r4_allow_listed"] += nallow
@@ -149,8 +149,8 @@ Ctx.r4 = r4
 
 # ---------------------------------------------------------------------- automatic discharges
 def _const_of(fn, op, depth=0):
-    """Integer value of an operand if it is (a cast / copy of) a compile-time constant, else None."""
-    if op is None or depth > 6:
+    """Integer value of an operand if it is a compile-time constant (through copies, casts and arithmetic on constants), else None."""
+    if op is None or depth > 8:
         return None
     if op.get("k") == "const":
         v = op["v"].get("v")
@@ -158,15 +158,49 @@ def _const_of(fn, op, depth=0):
             return int(v) if v is not None else None
         except ValueError:
             return None
-    l = local_of(op)
-    if l is None or l <= fn["argc"]:
+    if op.get("k") not in ("copy", "move"):
+        return None
+    pl = op["pl"]
+    proj = [p for p in pl["p"] if p != "*"]
+    l = pl["l"]
+    if l <= fn["argc"]:
         return None
     ds = defs_of(fn).get(l, [])
     if len(ds) != 1 or ds[0][0] != "st":
         return None
     rv = ds[0][2]
+    if proj:
+        # `.0` of a checked arithmetic result
+        if len(proj) == 1 and isinstance(proj[0], dict) and proj[0].get("f") == "0" and rv["r"] == "bin" and rv["op"].endswith("WithOverflow"):
+            return _fold(rv["op"][:-12], _const_of(fn, rv["a"], depth + 1), _const_of(fn, rv["b"], depth + 1))
+        return None
     if rv["r"] in ("use", "cast"):
         return _const_of(fn, rv["a"], depth + 1)
+    if rv["r"] == "bin":
+        return _fold(rv["op"], _const_of(fn, rv["a"], depth + 1), _const_of(fn, rv["b"], depth + 1))
+    return None
+
+
+def _fold(op, a, b):
+    if a is None or b is None:
+        return None
+    try:
+        if op == "Add":
+            return a + b
+        if op == "Sub":
+            return a - b
+        if op == "Mul":
+            return a * b
+        if op == "Div":
+            return a // b if b else None
+        if op == "Rem":
+            return a % b if b else None
+        if op == "Shl":
+            return a << b if 0 <= b < 128 else None
+        if op == "Shr":
+            return a >> b if 0 <= b < 128 else None
+    except Exception:
+        return None
     return None
 
 
@@ -191,6 +225,16 @@ def auto_discharge(ctx, s):
                 a, b = _const_of(fn, ds[0][2]["a"]), _const_of(fn, ds[0][2]["b"])
                 if (a is not None and a != 0 and b == 0) or (b is not None and b != 0 and a == 0):
                     return "A1: divisor is the non-zero constant %s" % (a if a else b)
+                # divisor = max(c, x) with a non-zero constant c
+                for side, zero in ((ds[0][2]["a"], b), (ds[0][2]["b"], a)):
+                    if zero == 0:
+                        e = Exprs(fn).operand(side)
+                        if e.kind == "call" and e.a in ("cmp::max", "Ord::max"):
+                            for kid in e.kids:
+                                if kid.kind in ("const", "item"):
+                                    m = re.search(r"(\d+)$", str(kid.a))
+                                    if m and int(m.group(1)) != 0:
+                                        return "A1: divisor is max(%s, _), non-zero" % kid.a
         if what == "BoundsCheck":
             # cond = Lt(index, len), expected true
             if len(ds) == 1 and ds[0][0] == "st" and ds[0][2]["r"] == "bin" and ds[0][2]["op"] == "Lt":
